@@ -6,6 +6,7 @@
     with a computational check of the generated tables. *)
 From Coq Require Import ZArith List Bool.
 From TM Require Import Codec.BaseN Codec.BaseNP Codec.Dec Codec.Event Codec.EventP Codec.Rule Codec.RuleP Codec.Json Codec.JsonP Codec.Ldap Codec.LdapP Gen.Tables Codec.C15Run.
+From TM Require Import Base.ShapeCanon.
 Import ListNotations.
 Open Scope Z_scope.
 
@@ -394,3 +395,10 @@ Example C15_ldap_nonvacuous :
                   [([116; 114; 97; 105; 116], [EStr [98]; EStr [97]]); ([99; 112; 117], [EStr [50]]); ([100; 105; 115; 107], []); ([115; 104; 97; 114; 101; 100; 45; 105; 112], [EBool true])]
      = [([99; 112; 117], MReplace [EStr [50]]); ([100; 105; 115; 107], MDelete); ([115; 104; 97; 114; 101; 100; 45; 105; 112], MAdd [EBool true])].
 Proof. vm_compute. repeat split. do 12 right. left. reflexivity. Qed.
+
+(** the functions named by this property's anchors still have the statement skeleton the model was written from
+    (re-extracted from the Python AST on every run, harness/tables_shape.py + harness/shape_pins.json; kept last so that
+    a difference does not stop the theorems above from being checked) *)
+Theorem C15_source_shape : shapes_ok_C15 = true.
+Proof. vm_compute. reflexivity. Qed.
+Print Assumptions C15_source_shape.
